@@ -728,10 +728,26 @@ def run_c20(ck, ctx):
 
 CHECKS = {}
 CHECKS = {
-    'C01': dict(modules=['FastPasta.Props.C10'], theorems=[], run=run_c01, needs_harness=False),
-    'C02': dict(modules=['FastPasta.Props.C10'], theorems=[], run=run_c02, needs_harness=False),
-    'C06': dict(modules=['FastPasta.Props.C18'], theorems=[], run=run_c06, needs_harness=True),
-    'C07': dict(modules=['FastPasta.Props.C18'], theorems=[], run=run_c07, needs_harness=False),
-    'C13': dict(modules=['FastPasta.Props.C18'], theorems=[], run=run_c13, needs_harness=False),
-    'C20': dict(modules=['FastPasta.Props.C18'], theorems=[], run=run_c20, needs_harness=False),
+    'C01': dict(modules=['FastPasta.Props.C01'], run=run_c01, needs_harness=False, corr='run_conforming',
+                theorems=['FastPasta.C01.conforming_rdhs_accepted', 'FastPasta.C01.conforming_step', 'FastPasta.C01.conforming_run',
+                          'FastPasta.C01.conforming_words_never_ambiguous']),
+    'C02': dict(modules=['FastPasta.Props.C02'], run=run_c02, needs_harness=False, corr='run_faulted',
+                theorems=['FastPasta.C02.rdh_sanity_fault_detected', 'FastPasta.C02.rdh_running_fault_detected', 'FastPasta.C02.sanity_mode_no_e11',
+                          'FastPasta.C02.ihw_fault_detected', 'FastPasta.C02.tdh_fault_detected', 'FastPasta.C02.tdt_fault_detected',
+                          'FastPasta.C02.ddw0_fault_detected', 'FastPasta.C02.ddw0_needs_stop_bit', 'FastPasta.C02.ddw0_needs_page_gt_0',
+                          'FastPasta.C02.ihw_needs_stop_0', 'FastPasta.C02.tdh_after_ihw_rules', 'FastPasta.C02.tdh_continuation_rule']),
+    'C06': dict(modules=['FastPasta.Props.C06'], run=run_c06, needs_harness=True, corr='link_*',
+                theorems=['FastPasta.C06.dispatch_partition', 'FastPasta.C06.interleave_invariant', 'FastPasta.C06.other_links_irrelevant',
+                          'FastPasta.C06.step_inv', 'FastPasta.C06.run_inv', 'FastPasta.C06.upd_other', 'FastPasta.C06.upd_own']),
+    'C07': dict(modules=['FastPasta.Props.C07'], run=run_c07, needs_harness=False, corr='run_corrupted',
+                theorems=['FastPasta.C07.finding_truthful_init', 'FastPasta.C07.finding_truthful', 'FastPasta.C07.linkStep_ok', 'FastPasta.C07.payloadChecks_ok',
+                          'FastPasta.C07.checkWords_ok', 'FastPasta.C07.checkWord_ok', 'FastPasta.C07.processFrame_ok', 'FastPasta.C07.preData_ok']),
+    'C13': dict(modules=['FastPasta.Props.C13'], run=run_c13, needs_harness=False, corr='run_frames',
+                theorems=['FastPasta.C13.decode_encode', 'FastPasta.C13.hits_irrelevant', 'FastPasta.C13.event_decoded', 'FastPasta.C13.apply_skeleton',
+                          'FastPasta.C13.lane_count_iff_ib', 'FastPasta.C13.lane_count_iff_ml', 'FastPasta.C13.lane_count_iff_ol']),
+    'C20': dict(modules=['FastPasta.Props.C20'], run=run_c20, needs_harness=False, corr='run_custom',
+                theorems=['FastPasta.C20.cdps_iff', 'FastPasta.C20.pht_iff', 'FastPasta.C20.absent_is_silent', 'FastPasta.C20.finalize_default',
+                          'FastPasta.C20.rdh_version_iff', 'FastPasta.C20.period_eq', 'FastPasta.C20.period_iff', 'FastPasta.C20.no_period_silent',
+                          'FastPasta.C20.pairing', 'FastPasta.C20.chip_count_iff', 'FastPasta.C20.chip_order_iff', 'FastPasta.C20.inner_builtin',
+                          'FastPasta.C20.ob_unconfigured_silent']),
 }
